@@ -405,8 +405,13 @@ def hadamard_sum(ts, algorithm="exact", eps=None):
 
         t = ts[m].decompress_tucker_factors()
         t._cp_to_tt()
+        # Open boundary bonds (CP cores at either end) are closed with ones, as torch() does
+        t.cores[0] = torch.sum(t.cores[0], dim=0, keepdim=True)
+        t.cores[-1] = torch.sum(t.cores[-1], dim=-1, keepdim=True)
         tstt.append(t)
     ts = tstt
+    if ts[0].dim() == 1:  # The approximate algorithm needs at least two modes
+        algorithm = "exact"
 
     if algorithm == "exact":
         K = len(ts)
